@@ -240,7 +240,7 @@ func constructedNonNil(v ssa.Value, b *ssa.BasicBlock, depth int) bool {
 		}
 		return constructedNonNil(c3.Call.Args[0], b, depth+1)
 	}
-	return false
+	return nonNilAt(v, b) // the error result of some other call, returned behind its non-nil test
 }
 
 // cmp describes a comparison condition with NOT stripped: op applied to x,y; neg tells that the
